@@ -444,7 +444,8 @@ def default_descs(tier, rnd):
                     for vi in range(nv):
                         shape = ["unit", "tuple", "named"][(vi + nv) % 3]
                         n = 0 if shape == "unit" else 1 + (vi % 2)
-                        vs.append({"shape": shape, "dmark": marks[vi], "vv": "call" if vvpos == vi else "none", "fields": flds(n)})
+                        # a value written on a variant's #[default(..)] is itself a #[default] marker
+                        vs.append({"shape": shape, "dmark": marks[vi] or vvpos == vi, "vv": "call" if vvpos == vi else "none", "fields": flds(n)})
                     out.append({"kind": "enum", "tv": tv, "variants": vs})
     return out
 
